@@ -106,7 +106,11 @@ type Case struct {
 	Consumes string `json:"consumes"` // media type the operation consumes
 	Produces string `json:"produces"` // media type the operation produces
 	Params   []P    `json:"params"`
-	Auth     bool   `json:"auth,omitempty"` // client auth writer that calls GetBody and sets a header
+	Auth     bool   `json:"auth,omitempty"` // a client auth writer is installed; it sets a credential header
+	// AuthMode says what the writer does besides setting the header: "" or "body1" it calls GetBody once,
+	// "header" never, "body2" / "body3" two / three times, "compose" it is client.Compose of two writers
+	// that each call GetBody once.
+	AuthMode string `json:"authmode,omitempty"`
 	// Siblings: other operations of the same description (their handlers must not run):
 	// "method" the same template under another method, any other string a template under the same method.
 	Siblings []string `json:"siblings,omitempty"`
@@ -840,10 +844,28 @@ func execute(s *server, cl *clientSide, c *Case) (res result, herr error) {
 		Context:            context.Background(),
 	}
 	if c.Auth {
-		op.AuthInfo = runtime.ClientAuthInfoWriterFunc(func(req runtime.ClientRequest, _ strfmt.Registry) error {
-			res.getBody = append([]byte(nil), req.GetBody()...)
-			return req.SetHeaderParam(authHeader, authValue)
-		})
+		reads := func(n int) runtime.ClientAuthInfoWriter {
+			return runtime.ClientAuthInfoWriterFunc(func(req runtime.ClientRequest, _ strfmt.Registry) error {
+				for i := 0; i < n; i++ {
+					res.getBody = append([]byte(nil), req.GetBody()...) // a signing writer reads the body
+				}
+				return req.SetHeaderParam(authHeader, authValue)
+			})
+		}
+		switch c.AuthMode {
+		case "", "body1":
+			op.AuthInfo = reads(1)
+		case "header":
+			op.AuthInfo = reads(0)
+		case "body2":
+			op.AuthInfo = reads(2)
+		case "body3":
+			op.AuthInfo = reads(3)
+		case "compose":
+			op.AuthInfo = client.Compose(reads(1), reads(1))
+		default:
+			return res, fmt.Errorf("unknown auth mode %q", c.AuthMode)
+		}
 	}
 	func() {
 		defer func() {
